@@ -585,6 +585,11 @@ func main() {
 				if only >= 0 && (k != only || mode != onlyMode) {
 					continue
 				}
+				if only < 0 && sc.name == "gnoland" && f.Tier == "quick" && mode == "after" && k < K {
+					// "just after write k" leaves the same DB as "just before write k+1" (only process memory
+					// differs, and that is discarded): the quick tier runs one of the two on the slow application
+					continue
+				}
 				lines, facts := r.crashRun(k, mode)
 				evals++
 				nontrivial++ // every crash point lies inside InitChain/Commit: uncommitted state is pending in memory
